@@ -22,7 +22,7 @@ RULE = ('designs = library blocks of the catalogue alone + seeded compositions (
         'parsed and judged by TLC (VerilogWF); distinct = distinct emitted texts')
 
 
-def classify(find, ast, all_finds):
+def classify(find, ast, all_finds, meta=None):
     """signature = failing site.  Findings that are consequences of a known root cause in the same module are attributed to it:
     a user port/wire called like the implicit clock port, or two objects sharing one module name with different ports."""
     import re
@@ -56,6 +56,17 @@ def classify(find, ast, all_finds):
                     return 'shared-module-name:' + re.sub(r'\d+', 'N', i['mod'])
     if rule == 'shared-name-not-interchangeable':
         return 'shared-module-name:' + re.sub(r'\d+', 'N', mod)
+    if m is not None and meta and meta.get('clocks'):
+        # an instance that connects a clock port called like ANOTHER clock driver than the one the shared body was emitted for
+        inst = next((i for i in m['insts'] if i['name'] == ident), None)
+        if inst is not None and rule in ('no-such-port', 'port-not-connected', 'input-port-not-connected'):
+            d = next((x for x in ast['modules'] if x['name'] == inst['mod']), None)
+            if d is not None:
+                dports = {p['n'] for p in d['ports']}
+                cports = {c['p'] for c in inst['conns']}
+                clocks = set(meta['clocks'])
+                if (cports - dports) & clocks or (dports - cports) & clocks:
+                    return 'shared-module-other-clock-name'
     mm = re.sub(r'_[0-9a-f]{8,}$', '', mod)
     mm = re.sub(r'\d+', 'N', mm)
     return '%s:%s' % (rule, mm)
@@ -100,7 +111,7 @@ def judge(run, items, tag):
             meta, text = metas[tid - 1]
             run.cov['modules_checked'] = run.cov.get('modules_checked', 0) + r[2]
             for f in r[3]:
-                run.violation('C03:' + classify(f, files[tid - 1], r[3]), {'design': meta['name'], 'finding': f, 'text': text[:4000]},
+                run.violation('C03:' + classify(f, files[tid - 1], r[3], meta), {'design': meta['name'], 'finding': f, 'text': text[:4000]},
                               '%s: %s in module %s (%s)' % (meta['name'], f[0], f[1], f[2]))
         if len(seen) != len(part):
             raise MachineryError('Trace_WF judged %d of %d files' % (len(seen), len(part)))
@@ -123,7 +134,7 @@ def gather(run, designs, again=0):
             iface = vdesigns.iface_table(d['top'])
         except Exception:
             iface = []
-        items.append(({'name': d['name'], 'kind': d['kind']}, text, iface))
+        items.append(({'name': d['name'], 'kind': d['kind'], 'clocks': d.get('clocks', [])}, text, iface))
         if again and len(items) % again == 0:
             # the same generator object asked again (whole hierarchy, then one sub-block): the answers must be closed texts too
             try:
@@ -162,6 +173,9 @@ def check(run):
     with quiet():
         pairs = vdesigns.pair_designs(rng, npair)
     judge(run, gather(run, pairs), 'pair')
+    with quiet():
+        multi = [vdesigns.multiclock(rng) for _ in range(30 if run.tier == 'quick' else 600)]
+    judge(run, gather(run, multi), 'multiclock')
     run.assumptions += ['front end implements the Verilog-2001 subset the emitters are allowed to produce; constructs it does not '
                         'implement are counted as unsupported, not judged',
                         'external IP wrappers (black boxes) are outside the catalogue']
